@@ -1,7 +1,8 @@
 # C13 — pika::thread and jthread: join waits for completion, always returns (structural part; DESIGN.md §5 C13)
+import re
 from engine.core import AnalysisBroken, P, T, callee_of, callee_short, cond_atoms, loc_of, strip, forward, block_path
 from engine.kinds import LockFlow, FactFlow, CountFlow, check_guarded, precedes_on_all_paths, always_followed_by
-from .common import facts, lib, driver, witness
+from .common import facts, lib, driver, witness, local_init
 
 EXPLANATION = (
     "Static analysis of the current source. Decided: thread::join suspends only when the exit callback was accepted "
@@ -75,7 +76,15 @@ def run(rep, tier):
     if addcb:
         fb = ff.before.get(addcb[0]) or frozenset()
         joinable = any(t and "joinable_locked()" in a for a, t in fb)
-        notself = any((not t) and "this_id" in a and "id_" in a for a, t in fb)
+        # "the caller is not the joined thread": a failed comparison of id_ with a local that holds get_self_id()
+        def is_self_cmp(a):
+            m = re.match(r"^(?:(?:\w+\{)?(\w+)\}? == this->id_|this->id_ == (?:\w+\{)?(\w+)\}?)$", a)
+            if not m:
+                return "get_self_id()" in a and "id_" in a
+            v = m.group(1) or m.group(2)
+            ini = local_init(jn, v)
+            return ini is not None and "get_self_id" in T(ini)
+        notself = any((not t) and is_self_cmp(a) for a, t in fb)
         if joinable and notself:
             rep.ok("C13.R1", jn, "non-joinable and self-join are rejected before the callback is registered")
         else:
@@ -90,8 +99,25 @@ def run(rep, tier):
     else:
         rep.bad("C13.R2", tf, tf.loc, "exit-callbacks", "thread function returns with the exit callbacks run %s times: a joiner is never resumed / resumed twice" % sorted(cf.exits))
     rethrows = [(b, i, ev) for b, i, ev in tf.all_events() if ev.get("k") == "throw" and ev.get("e") is None]
-    okr = rethrows and all(precedes_on_all_paths(tf, is_run, (b, i)) is not False and
-                           any(is_run(e) for e in tf.blocks[b].events[:i]) for b, i, ev in rethrows)
+    def run_before_rethrow(b, i):
+        # every path from a handler entry to the rethrow at (b, i) executes the callbacks (block granular)
+        if any(is_run(e) for e in tf.blocks[b].events[:i]):
+            return True
+        hit = set(bb for bb, ii, e in tf.all_events() if is_run(e))
+        starts = [h["block"] for t in tf.tries.values() for h in t["handlers"]]
+        seen, work = set(starts), list(starts)
+        while work:
+            x = work.pop()
+            if x in hit:
+                continue
+            if x == b:
+                return False
+            for _, t_ in tf.succs(x):
+                if t_ not in seen:
+                    seen.add(t_)
+                    work.append(t_)
+        return bool(starts)
+    okr = rethrows and all(run_before_rethrow(b, i) for b, i, ev in rethrows)
     if okr:
         rep.ok("C13.R2", tf, "callbacks run before a pika::exception is rethrown")
     else:
